@@ -10,11 +10,13 @@ mod plevel_ext;
 mod plevel_logic;
 mod plevel_global;
 mod lp;
+mod api;
 mod mlevel;
 mod mroutes;
 mod fi;
 mod limits;
 mod gac;
+mod sudoku;
 
 pub fn parse_list(tok: &str) -> Vec<i32> {
     if tok == "-" || tok.is_empty() {
@@ -43,6 +45,7 @@ fn main() {
         "ctx" => plevel::run_ctx,
         "view" => plevel::run_view,
         "lp" => lp::run_case,
+        "api" => api::run_case,
         "lower" => mlevel::run_lower,
         "msolve" => mlevel::run_msolve,
         "mspell" => mlevel::run_mspell,
@@ -52,6 +55,8 @@ fn main() {
         "ctxf" => fi::run_ctxf,
         "limits" => limits::run_case,
         "gac" => gac::run_case,
+        "sudoku" => sudoku::run_case,
+        "sudokun" => sudoku::run_nodes,
         _ => {
             eprintln!("unknown sub-command {}", sub);
             std::process::exit(2);
